@@ -373,7 +373,9 @@ def criteria_strategy():
                             '(x*', 'a.?', '[*', 'a+*', 'x~*y', 'a\\*',
                             # head and tail that overlap in a short cell
                             'a*a', 'ab*b', 'a*ab', 'ab*ab', 'b*b', 'ab*ba',
-                            'a*b*a', 'aa*a'])
+                            'a*b*a', 'aa*a',
+                            # a ? behind a *: at least one more character
+                            'a*?', '*??', 'a*?c', '*?b', 'ab*?', '*?*'])
     ops = st.sampled_from(['', '=', '<>', '<', '<=', '>', '>='])
     eqops = st.sampled_from(['', '=', '<>'])
     return st.one_of(
